@@ -11,6 +11,7 @@ import (
 	"fmt"
 	"os"
 	"path/filepath"
+	"runtime"
 	"sort"
 	"strconv"
 	"strings"
@@ -187,6 +188,10 @@ func Main(t *testing.T, property string, workloads []Workload) {
 		if only != "" && w.Name != only {
 			continue
 		}
+		// workloads named *-fine need the binary built with the instrumented router
+		if strings.HasSuffix(w.Name, "-fine") != (os.Getenv("VERIF_FINE") == "1") {
+			continue
+		}
 		if w.EnumerateT != nil {
 			cells, err := w.EnumerateT(t, tier, seed, root.Sub(w.Name))
 			if err != nil {
@@ -337,6 +342,11 @@ func safeRun(w *Workload, rc *RunCtx) (out Outcome) {
 	cryptotest.SetGlobalRandom(rc.T, g)
 	defer func() {
 		if r := recover(); r != nil {
+			if os.Getenv("VERIF_DEBUG") != "" {
+				buf := make([]byte, 1<<20)
+				n := runtime.Stack(buf, true)
+				fmt.Printf("PANIC %v\n%s\n", r, buf[:n])
+			}
 			out = Outcome{HarnessErr: fmt.Errorf("panic in harness/bubble: %v", r)}
 		}
 	}()
@@ -407,6 +417,10 @@ func handleViolation(t *testing.T, seed int64, w *Workload, rc *RunCtx, out Outc
 		return safeRun(w, &r2)
 	}
 	conf := rerun(out.Trace, params)
+	for attempt := 0; attempt < 2 && !same(conf); attempt++ {
+		conf = rerun(out.Trace, params) // a replay that does not reproduce is retried before it is declared non-reproducing
+		res.Probes["confirm_retries"]++
+	}
 	if !same(conf) {
 		got := "no violation"
 		if conf.Violation != nil {
